@@ -166,6 +166,17 @@ def anysym(x, _seen=None, _depth=0):
     return False
 
 
+def _py_dunder(obj, name):
+    """The Python-level special method `name` of obj's class, if obj is an instance with symbolic parts."""
+    if is_sym(obj) or isinstance(obj, (SymArray, int, float, str, list, tuple, dict, set)) and type(obj) in (
+            int, float, str, list, tuple, dict, set):
+        return None
+    m = getattr(type(obj), name, None)
+    if isinstance(m, types.FunctionType) and anysym(obj):
+        return m
+    return None
+
+
 class Interp:
     LOOP_FUEL = 64
 
@@ -250,7 +261,17 @@ class Interp:
     def call(self, f, args, kw):
         hook = self.hooks.get(getattr(f, '__func__', f)) if _hashable(f) else None
         if hook is not None:
-            return hook(self, f, args, kw)
+            # hooks always see the receiver as first argument, whether the method was called bound or unbound
+            hargs = [f.__self__] + list(args) if inspect.ismethod(f) else list(args)
+            hkw = kw
+            try:       # keyword arguments are turned into positional ones (hooks index their arguments)
+                ba = inspect.signature(getattr(f, '__func__', f)).bind(*hargs, **kw)
+                hargs, hkw = list(ba.args), dict(ba.kwargs)
+            except (TypeError, ValueError):
+                pass
+            r = hook(self, f, hargs, hkw)
+            if r is not NotImplemented:     # a hook may decline (e.g. induction hypothesis only for opaque arguments)
+                return r
         if isinstance(f, Closure):
             return f(*args, **kw)
         sym = anysym(args) or anysym(list(kw.values()))
@@ -270,11 +291,18 @@ class Interp:
         if f is float:
             return to_real(args[0])
         if f is int:
-            return py_int(args[0])
+            m = _py_dunder(args[0], '__int__')
+            return self.call_function(m, [args[0]], {}) if m else py_int(args[0])
         if f is bool:
             return self.truth(args[0])
         if f is abs:
-            return abs(args[0])
+            m = _py_dunder(args[0], '__abs__')
+            return self.call_function(m, [args[0]], {}) if m else abs(args[0])
+        if f is isinstance and is_sym(args[0]):
+            want = args[1] if isinstance(args[1], tuple) else (args[1],)
+            t = args[0].t
+            return (z3.is_int(t) and int in want) or (z3.is_real(t) and float in want) or \
+                (z3.is_bool(t) and bool in want)
         if f in (len, tuple, list, zip, enumerate, reversed, iter, next, range, dict, isinstance, type, id, repr,
                  hasattr, getattr, setattr):
             return self.native(f, args, kw)
@@ -345,6 +373,10 @@ class Interp:
         if name in ('append', 'extend', 'copy', 'pop', 'insert', 'setdefault', 'update', 'items', 'keys', 'values',
                     'get', 'reverse', 'clear') and not (name in ('get', 'setdefault', 'pop') and args and anysym(args[0])):
             return f(*args, **kw)
+        if name == 'add' and isinstance(s, set) and is_sym(args[0]):
+            # A4: a set with symbolic members is only ever queried through `in` (modelled as a disjunction of
+            # equalities), so keeping two symbols that may be equal is harmless
+            return f(*args)
         if name in ('index', 'count', 'remove', '__contains__', 'add', 'discard', 'get', 'setdefault', 'pop', 'sort'):
             raise OutsideSubset(f'{type(s).__name__}.{name} needs equality of symbolic values')
         return f(*args, **kw)
@@ -622,6 +654,14 @@ class Interp:
             if isinstance(op, ast.NotEq):
                 return Not(r) if is_sym(r) else (not r)
             return r
+        dn = {ast.Lt: '__lt__', ast.LtE: '__le__', ast.Gt: '__gt__', ast.GtE: '__ge__'}[type(op)]
+        m = _py_dunder(a, dn)
+        if m is not None:
+            return self.call_function(m, [a, b], {})
+        rn = {ast.Lt: '__gt__', ast.LtE: '__ge__', ast.Gt: '__lt__', ast.GtE: '__le__'}[type(op)]
+        m = _py_dunder(b, rn)
+        if m is not None:
+            return self.call_function(m, [b, a], {})
         if is_sym(a) or is_sym(b):
             if a is None or b is None:
                 raise Raised(TypeError('ordering comparison with None'))
@@ -724,7 +764,8 @@ class Interp:
             if isinstance(e.op, ast.Not):
                 return not self.truth(v)
             if isinstance(e.op, ast.USub):
-                return -v
+                m = _py_dunder(v, '__neg__')
+                return self.call_function(m, [v], {}) if m else -v
             if isinstance(e.op, ast.UAdd):
                 return +v
             if isinstance(e.op, ast.Invert):
